@@ -15,6 +15,7 @@ pub const FRAGMENTS: &[&[u8]] = &[
     b"#\\space", b"#\\spa", b"#\\(", b"#\\xD800", b"#\\x110000", b"#\\x1000000", b"#b", b"#b101", b"#o17", b"#x", b"#xFf", b"#d", b"#d1", b"#e", b"#b2",
     b"0", b"1", b"9", b"12", b"007", b"-", b"+", b"-1", b"+1", b"1.", b".5", b"1.5", b"1e", b"1e3", b"1e+", b"1.5e-3", b"1e400",
     b"18446744073709551615", b"18446744073709551616", b"-9223372036854775808", b"-9223372036854775809", b"1+", b"1/2", b"0x10", b"12ab",
+    b".a:", b"-a:", b"+.a:", b"\xce\xbb:", b":.a", b"#:.a", b"#%a:", b".a", b"+.a", b"-..", b"\xe2\x82\xac(", b"-x",
     b"a", b"b", b"ab", b"nil", b"t", b"x", b"e", b"...", b"..", b"->", b"a.b", b":", b":a", b"a:", b":a:", b"::", b"?", b"?a", b"?\\(", b"?\\", b"?\\x41",
     b"?\\^a", b"?\\N{U+41}", b"?\\u0041", b"?\\U00000041", b"?\\101", b"!", b"$", b"%", b"&", b"*", b"/", b"<", b"=", b">", b"@", b"^", b"_", b"~", b"|", b"{", b"}",
     b"\"", b"\"a\"", b"\"\"", b"\\", b"\\\"", b"\\\\", b"\\n", b"\\x", b"\\x41;", b"\\x41", b"\\xD800;", b"\\x110000;", b"\\u0041", b"\\u", b"\\U00000041",
